@@ -69,8 +69,11 @@ type PairConfig struct {
 	ServerScheme   string              // other documented spelling of the server's address scheme (e.g. "http+tls", "wss" for an https carrier)
 	Domain         string              // DNS tunnel domain
 	ExtraUpstreams []upstream.Upstream // tried before the pair's own upstream (C16)
-	HTTPEndpoints  []EndpointSpec      // websocket paths of an http(s) server (default: /ws/all with AllowList)
-	HTTPPath       string              // path the client connects to (default /ws/all)
+	// SpareUpstream: the client's fail-over list names the server twice (an endpoint behind the first that is just
+	// as reachable and, as long as the first works, never needed)
+	SpareUpstream bool
+	HTTPEndpoints []EndpointSpec // websocket paths of an http(s) server (default: /ws/all with AllowList)
+	HTTPPath      string         // path the client connects to (default /ws/all)
 }
 
 // EndpointSpec is one websocket path with its own allow-list.
@@ -273,6 +276,11 @@ func StartPair(cfg PairConfig) (*Pair, error) {
 	}
 	ups := append([]upstream.Upstream{}, cfg.ExtraUpstreams...)
 	ups = append(ups, up)
+	if cfg.SpareUpstream {
+		if spare := p.UpstreamFor(); spare != nil {
+			ups = append(ups, spare)
+		}
+	}
 	p.Client = &clientCmd.Command{
 		ClientConfig: cert.ClientConfig{Config: certConfig(cfg.ClientCert, cfg.ClientCA), InsecureSkipVerify: cfg.ClientInsecure},
 		Upstream:     upstream.Upstreams{Data: ups},
